@@ -46,6 +46,13 @@ inductive AErr where
   | localTimezoneMissing
   deriving DecidableEq, Repr
 
+instance {ε α : Type} [DecidableEq ε] [DecidableEq α] : DecidableEq (Except ε α) := fun x y =>
+  match x, y with
+  | .ok a, .ok b => if h : a = b then isTrue (by rw [h]) else isFalse (fun h' => h (Except.ok.inj h'))
+  | .error a, .error b => if h : a = b then isTrue (by rw [h]) else isFalse (fun h' => h (Except.error.inj h'))
+  | .ok _, .error _ => isFalse (fun h => nomatch h)
+  | .error _, .ok _ => isFalse (fun h => nomatch h)
+
 /-- `tools.to_datetime` -/
 def toDatetime : Trig → Trig
   | .date d => .floating (d * 86400)
